@@ -19,14 +19,14 @@ RULE = (
 )
 ASSUMPTIONS = ["one CPU device in the sandbox: a 2-device list is the same device twice (only its length is used by reshape_pmap)"]
 ANCHORS = ["ginjax.ml.training:get_batches", "ginjax.geometric.multi_image:MultiImage.get_subset", "ginjax.geometric.multi_image:MultiImage.reshape_pmap"]
-MIN_NONTRIVIAL = {"quick": 60, "thorough": 800}
+MIN_NONTRIVIAL = {"quick": 60, "thorough": 2500}
 WORKERS = {"quick": 6, "thorough": 16}
 TIMEOUT = {"quick": 900, "thorough": 3600}
 TYPESETS = [[(0, 0)], [(0, 0), (1, 0)], [(1, 1), (0, 1), (0, 0)], [(2, 0), (1, 0)], [(0, 1)]]
 
 
 def cases(tier, seed):
-    n = 200 if tier == "quick" else 3000
+    n = 200 if tier == "quick" else 8000
     return [{"n": i} for i in range(n)]
 
 
